@@ -116,6 +116,7 @@ type fnTrans struct {
 	outside       map[string]int
 	callSites     map[ssa.Instruction]string
 	usedAsserts   map[string]bool
+	calleeLibs    map[string]bool // spec libraries named by the contracts of the functions called
 	usedSites     map[string]bool
 	stmtSites     map[ssa.Instruction][]string
 	hasStmtSites  bool
